@@ -379,6 +379,8 @@ def build(w: dict) -> xarray.Dataset:
             if c.get("encoding") is not None or c.get("kind") == "time":
                 ds[c["name"]].encoding.update(da.encoding)
     for v in w.get("vars", []):
+        if v.get("late"):
+            continue                      # added later, in place (see cellsdrv Mutate)
         ds[v["name"]] = var_array(w, v)
     return ds
 
@@ -479,7 +481,7 @@ def _build_ugrid(w):
     maxn = max(len(f) for f in faces)
     maxn = max(maxn, enc.get("pad_to", 0))
     nface = len(faces); nnode = len(nodes)
-    FILL = 999999
+    FILL = int(enc.get("fillvalue", 999999))      # e.g. 0 with one-based indexes, -1 with zero-based ones
 
     def table(rows, width, primary_dim, secondary_dim, *, transposed=False, name=None, role=None):
         ragged = any(len(r) < width for r in rows)
